@@ -76,6 +76,9 @@ enum Node {
     Suspense(Box<Node>, Box<Node>),
     /// 12: the real leptos `<Transition fallback>` around the child
     Transition(Box<Node>, Box<Node>),
+    /// 13: `move || res.get().map(|_| child)`: a synchronous read of the resource
+    /// (`ArcAsyncDerived`) that loads when future f completes; the child has no futures
+    Res(u32, Box<Node>),
 }
 
 fn parse(s: &Sexp) -> Node {
@@ -99,6 +102,7 @@ fn parse(s: &Sexp) -> Node {
         10 => Node::ErrB(Box::new(parse(s.at(1)))),
         11 => Node::Suspense(Box::new(parse(s.at(1))), Box::new(parse(s.at(2)))),
         12 => Node::Transition(Box::new(parse(s.at(1))), Box::new(parse(s.at(2)))),
+        13 => Node::Res(s.at(1).num() as u32, Box::new(parse(s.at(2)))),
         _ => panic!("bad node kind {k}"),
     }
 }
@@ -112,7 +116,7 @@ fn futures_of(n: &Node, out: &mut Vec<u32>) {
             futures_of(b, out)
         }
         Node::Tuple(cs) | Node::VecOf(cs) => cs.iter().for_each(|c| futures_of(c, out)),
-        Node::Suspend(f, c) | Node::RawAsync(f, c) => {
+        Node::Suspend(f, c) | Node::RawAsync(f, c) | Node::Res(f, c) => {
             out.push(*f);
             futures_of(c, out)
         }
@@ -131,7 +135,7 @@ fn futures_of(n: &Node, out: &mut Vec<u32>) {
 
 fn has_leptos(n: &Node) -> bool {
     match n {
-        Node::ErrB(_) | Node::Suspense(..) | Node::Transition(..) => true,
+        Node::ErrB(_) | Node::Suspense(..) | Node::Transition(..) | Node::Res(..) => true,
         Node::Text(_) | Node::RawSync(_) => false,
         Node::Elem(_, c) | Node::Suspend(_, c) | Node::Append(c) | Node::RawAsync(_, c) => has_leptos(c),
         Node::Tuple(cs) | Node::VecOf(cs) => cs.iter().any(has_leptos),
@@ -144,7 +148,7 @@ fn has_raw(n: &Node) -> bool {
     match n {
         Node::Text(_) => false,
         Node::RawSync(_) | Node::RawAsync(..) | Node::Boundary { .. } | Node::Append(_) => true,
-        Node::ErrB(_) | Node::Suspense(..) | Node::Transition(..) => true,
+        Node::ErrB(_) | Node::Suspense(..) | Node::Transition(..) | Node::Res(..) => true,
         Node::Elem(_, c) | Node::Suspend(_, c) => has_raw(c),
         Node::Tuple(cs) | Node::VecOf(cs) => cs.iter().any(has_raw),
         Node::Opt(c) => c.as_ref().map(|c| has_raw(c)).unwrap_or(false),
@@ -226,6 +230,64 @@ fn build(n: &Node, rxs: &Rxs) -> AnyView {
             let (fb, c, rxs, rxs2) = ((**fb).clone(), (**c).clone(), rxs.clone(), rxs.clone());
             view! { <Transition fallback=move || build(&fb, &rxs2)>{build(&c, &rxs)}</Transition> }.into_any()
         }
+        Node::Res(f, c) => {
+            use leptos::prelude::*;
+            let res = RES
+                .with(|r| r.borrow().get(f).cloned())
+                .unwrap_or_else(|| panic!("resource {f} not created"));
+            let (c, rxs) = ((**c).clone(), rxs.clone());
+            (move || res.get().map(|_| build(&c, &rxs))).into_any()
+        }
+    }
+}
+
+thread_local! {
+    /// the resources of the current case (created by `create_resources`)
+    static RES: std::cell::RefCell<BTreeMap<u32, leptos::prelude::ArcAsyncDerived<()>>> =
+        std::cell::RefCell::new(BTreeMap::new());
+}
+
+fn res_ids(n: &Node, out: &mut Vec<u32>) {
+    match n {
+        Node::Res(f, c) => {
+            out.push(*f);
+            res_ids(c, out)
+        }
+        Node::Text(_) | Node::RawSync(_) => {}
+        Node::Elem(_, c) | Node::Suspend(_, c) | Node::Append(c) | Node::RawAsync(_, c) | Node::ErrB(c) => {
+            res_ids(c, out)
+        }
+        Node::Tuple(cs) | Node::VecOf(cs) => cs.iter().for_each(|c| res_ids(c, out)),
+        Node::Boundary { fallback, content, .. } => {
+            res_ids(fallback, out);
+            res_ids(content, out)
+        }
+        Node::Suspense(a, b) | Node::Transition(a, b) => {
+            res_ids(a, out);
+            res_ids(b, out)
+        }
+        Node::Opt(c) => {
+            if let Some(c) = c {
+                res_ids(c, out)
+            }
+        }
+    }
+}
+
+/// creates the `ArcAsyncDerived` of every `Res` node (spawns their tasks; nothing runs yet)
+fn create_resources(tree: &Node, rxs: &Rxs) {
+    use futures::FutureExt as _;
+    let mut ids = vec![];
+    res_ids(tree, &mut ids);
+    for f in ids {
+        let rx = take_rx(rxs, f).shared();
+        let res = leptos::prelude::ArcAsyncDerived::new(move || {
+            let rx = rx.clone();
+            async move {
+                let _ = rx.await;
+            }
+        });
+        RES.with(|r| r.borrow_mut().insert(f, res));
     }
 }
 
@@ -609,6 +671,8 @@ fn reference(tree: &Node, futs: &[u32]) -> (Sexp, Sexp) {
         for (_, tx) in txs {
             let _ = tx.send(());
         }
+        create_resources(tree, &rxs);
+        exec::settle();
         let view = build(tree, &rxs);
         let mut stream = Box::pin(view.to_html_stream_in_order());
         let w = Arc::new(CountWaker(AtomicUsize::new(0)));
@@ -651,7 +715,131 @@ fn reference(tree: &Node, futs: &[u32]) -> (Sexp, Sexp) {
     (r1, r2)
 }
 
+/// opcode 1: the executor runs only when the schedule says so.
+/// events: (0 f) complete f | (1) poll | (2) tick: run the executor until it stalls |
+///         (3) create the resources | (4) render: build the view and its stream
+/// (create / render happen implicitly before the first event that needs them).  After the
+/// schedule: complete what is left, then alternate tick and poll until the stream ends.
+/// log: polls as in opcode 0, (3 0) completion, (5) tick, (6) create, (7) render
+fn run_ticks(c: &Sexp) -> Sexp {
+    let ooo = c.at(1).num() != 0;
+    let tree = parse(c.at(3));
+    let sched: Vec<(i64, u32)> = c
+        .at(5)
+        .list()
+        .iter()
+        .map(|e| (e.at(0).num(), e.at(1).num() as u32))
+        .collect();
+    let mut futs = vec![];
+    futures_of(&tree, &mut futs);
+    exec::reset();
+    RES.with(|r| r.borrow_mut().clear());
+    let (r1, _) = reference(&tree, &futs);
+    exec::reset();
+    RES.with(|r| r.borrow_mut().clear());
+
+    let owner = Owner::new();
+    let log = owner.with(|| {
+        let (rxs, mut txs) = channels(&futs);
+        let count = Arc::new(CountWaker(AtomicUsize::new(0)));
+        let waker = Waker::from(count.clone());
+        let mut stream: Option<Pin<Box<StreamBuilder>>> = None;
+        let mut created = false;
+        let mut ended = false;
+        let mut log: Vec<Sexp> = vec![];
+        let mut step = |k: i64, f: u32, log: &mut Vec<Sexp>, ended: &mut bool| {
+            if (k == 4 || k == 1) && !created {
+                create_resources(&tree, &rxs);
+                created = true;
+                log.push(Lst(vec![Num(6)]));
+            }
+            if k == 1 && stream.is_none() {
+                let view = build(&tree, &rxs);
+                stream = Some(Box::pin(if ooo {
+                    view.to_html_stream_out_of_order()
+                } else {
+                    view.to_html_stream_in_order()
+                }));
+                log.push(Lst(vec![Num(7)]));
+            }
+            match k {
+                0 => {
+                    if let Some(tx) = txs.remove(&f) {
+                        let _ = tx.send(());
+                    }
+                    log.push(Lst(vec![Num(3), Num(0)]));
+                }
+                1 => {
+                    let mut cx = Context::from_waker(&waker);
+                    match stream.as_mut().unwrap().as_mut().poll_next(&mut cx) {
+                        Poll::Pending => log.push(Lst(vec![Num(0)])),
+                        Poll::Ready(Some(s)) => log.push(Lst(vec![Num(1), Sexp::from_str(&s)])),
+                        Poll::Ready(None) => {
+                            log.push(Lst(vec![Num(2)]));
+                            *ended = true;
+                        }
+                    }
+                }
+                2 => {
+                    exec::settle();
+                    log.push(Lst(vec![Num(5)]));
+                }
+                3 => {
+                    if !created {
+                        create_resources(&tree, &rxs);
+                        created = true;
+                        log.push(Lst(vec![Num(6)]));
+                    }
+                }
+                _ => {
+                    if stream.is_none() {
+                        let view = build(&tree, &rxs);
+                        stream = Some(Box::pin(if ooo {
+                            view.to_html_stream_out_of_order()
+                        } else {
+                            view.to_html_stream_in_order()
+                        }));
+                        log.push(Lst(vec![Num(7)]));
+                    }
+                }
+            }
+        };
+        for (k, f) in &sched {
+            step(*k, *f, &mut log, &mut ended);
+        }
+        let mut rest = futs.clone();
+        rest.sort();
+        rest.dedup();
+        let done: std::collections::BTreeSet<u32> =
+            sched.iter().filter(|(k, _)| *k == 0).map(|(_, f)| *f).collect();
+        for f in rest {
+            if !done.contains(&f) {
+                step(0, f, &mut log, &mut ended);
+            }
+        }
+        let mut n = 0;
+        while !ended {
+            if n >= POLL_BOUND {
+                log.push(Lst(vec![Num(9)]));
+                break;
+            }
+            step(2, 0, &mut log, &mut ended);
+            step(1, 0, &mut log, &mut ended);
+            n += 1;
+        }
+        drop(step);
+        drop(stream);
+        log
+    });
+    exec::reset();
+    RES.with(|r| r.borrow_mut().clear());
+    Lst(vec![r1, Lst(vec![]), Lst(log)])
+}
+
 fn run(c: &Sexp) -> Sexp {
+    if c.at(0).num() == 1 {
+        return run_ticks(c);
+    }
     if c.at(0).num() != 0 {
         return Lst(vec![]);
     }
@@ -668,8 +856,10 @@ fn run(c: &Sexp) -> Sexp {
     let mut futs = vec![];
     futures_of(&tree, &mut futs);
     exec::reset();
+    RES.with(|r| r.borrow_mut().clear());
     let (r1, r2) = reference(&tree, &futs);
     exec::reset();
+    RES.with(|r| r.borrow_mut().clear());
 
     let owner = Owner::new();
     let log = owner.with(|| {
@@ -679,6 +869,8 @@ fn run(c: &Sexp) -> Sexp {
                 let _ = tx.send(());
             }
         }
+        create_resources(&tree, &rxs);
+        exec::settle();
         let view = build(&tree, &rxs);
         let stream = if ooo {
             view.to_html_stream_out_of_order()
